@@ -1,6 +1,6 @@
 """C10 (discovered dependencies are inputs, scan side): DependencyScan::RecomputeNodeDirty (props/scanunit.py)."""
 from engine.selftest import subst
-from props import scanjobs
+from props import scanjobs, builderjobs
 
 ID = "C10"
 USES_CPP = True
@@ -13,7 +13,8 @@ MANIFEST = {
                 "compared with a discovered dependency that is newer than every declared input), that missing or outdated dependency information makes the statement dirty instead of failing, "
                 "and that this happens 'whatever else is out of date at the same time'. The last clause FAILS on the unchanged tree and is a KNOWN FINDING (deps are not loaded when the statement is already "
                 "dirty; native demonstration in findings/C10-deps-not-loaded-when-dirty/). Also (Plan::AddSubTarget, C05 unit) a vanished discovered dependency is not a 'missing source' error. "
-                "NOT decided: ImplicitDepLoader itself (depfile/deps-log reading, node creation), msvc /showIncludes, the build-side half (Builder::ExtractDeps), whole-build equivalence with a declared implicit input.",
+                "Build side (Builder::ExtractDeps / FinishCommand, real text, callees by contract): every dependency the depfile or the compiler output names is handed on, once, in order, and recorded for every output. "
+                "NOT decided: ImplicitDepLoader itself (depfile/deps-log reading, node creation), whole-build equivalence with a declared implicit input.",
         "design_ref": "DESIGN.md 5 C10",
     },
     "level_note": "trusted: " + "; ".join(scanjobs.TRUST),
@@ -22,7 +23,7 @@ MANIFEST = {
 
 
 def jobs(tier, mutant=None):
-    return scanjobs.select(tier, ["S1"], r'\bC10\b', mutant)
+    return scanjobs.select(tier, ["S1"], r'\bC10\b', mutant) + builderjobs.select(tier, ["B4", "B2"], r'\bC10\b', mutant)
 
 
 def _m(target, old, new):
@@ -36,6 +37,7 @@ MUTANTS = [
      _m("RecomputeNodeDirty", "    if (!dirty) {\n      // Load discovered deps.", "    if (false) {\n      // Load discovered deps.")),
     ("loaded_deps_not_examined", _m("RecomputeNodeDirty", "        if (!RecomputeEdgesInputsDirty(node, new_deps.value(), most_recent_input, dirty,\n                                       stack, validation_nodes, err))\n          return false;\n", "")),
     ("missing_deps_info_ignored", _m("RecomputeNodeDirty", "        dirty = edge->deps_missing_ = true;\n      } else {", "        edge->deps_missing_ = true;\n      } else {")),
+    ("last_dependency_dropped", _m("ExtractDeps", "i != deps.ins_.end(); ++i) {", "i + 1 != deps.ins_.end(); ++i) {")),
     ("newer_discovered_dep_not_compared", _m("RecomputeNodeDirty", "dirty = recomputeOutputsDirty.depfile(most_recent_input);", "dirty = false;")),
 ]
 
@@ -49,9 +51,9 @@ def replay(job, ob, vals, scratch):
 
 def describe(tier):
     return {
-        "functions": ["graph.cc:DependencyScan::RecomputeNodeDirty", "graph.cc:DependencyScan::VerifyDAG"],
+        "functions": ["graph.cc:DependencyScan::RecomputeNodeDirty", "graph.cc:DependencyScan::VerifyDAG", "build.cc:Builder::ExtractDeps", "build.cc:Builder::FinishCommand"],
         "checker_cmd": "goto-cc -std=c++11 unit.cc (slices + stubs + harness); cbmc a.gb --unwind 18 --unwinding-assertions + checks",
-        "trusted_base": scanjobs.TRUST,
+        "trusted_base": scanjobs.TRUST + builderjobs.TRUST,
         "bounds": {t: "one statement, all callee verdicts symbolic (loop-light: the only loops run over 2 outputs / 1 validation)" for t in ("quick", "thorough")},
         "assumptions": scanjobs.ASSUME,
         "silent": ["ImplicitDepLoader (reading depfiles / the deps log, creating nodes and phony in-edges)", "Builder::ExtractDeps", "equivalence with a declared implicit input over whole builds"],
